@@ -89,7 +89,7 @@ CHECKS.update({
             "Tie: schedule correspondence; oracle: at-most-one / error code / serial equivalence on the real service for every executed "
             "interleaving (targeted gap schedules + depth-first enumeration).",
             "6 C05", CONC_NOTE, "Coq proof by induction over schedules (generation monotonicity + compare-and-swap lemmas) + exhaustive-per-scenario schedule correspondence"),
-    'C06': ("proof", "Coq theorems over all schedules: a write naming consumer c with generation g commits only against generation g (null: "
+    'C06': ("proof", "For EVERY request kind as a thread (Model/ConcAll.v), any schedule: what a transaction may do to a consumer by the request's answer, exact accounting of consumer generations per stretch of a consumer's life, a success holding generation g for consumer c commits against stored generation g, at most one of the holders of g (and of the null-carriers) has an effect - with c_alive / c_no_end as stated, necessary hypotheses (C06_commit_generation_all_kinds, C06_at_most_one_all_kinds, C06_null_at_most_one, C10_consumer_accounting). Coq theorems over all schedules: a write naming consumer c with generation g commits only against generation g (null: "
             "only if it created c itself); at most one of the writes carrying the same generation for an existing consumer succeeds. Two "
             "benign anomalies of the real service are recorded as known findings (double wipe; success on a consumer created by a failed "
             "request) and are exactly the extra hypotheses of the theorems. Tie and oracle as C05.",
